@@ -450,6 +450,17 @@ func (o *ObjectSchema) Validate(data any) error {
 }
 
 func (o *ObjectSchema) applySubObjectDefaultValues(propertyID string, property *PropertySchema, rawData map[string]any) {
+	o.applySubObjectDefaultValuesRecursive(propertyID, property, rawData, map[Object]struct{}{})
+}
+
+// applySubObjectDefaultValuesRecursive does the work of applySubObjectDefaultValues. The visiting set holds the
+// objects on the current path so that self-referential object graphs terminate.
+func (o *ObjectSchema) applySubObjectDefaultValuesRecursive(
+	propertyID string,
+	property *PropertySchema,
+	rawData map[string]any,
+	visiting map[Object]struct{},
+) {
 	reflectedType := property.ReflectedType()
 	if reflectedType.Kind() == reflect.Pointer {
 		return
@@ -463,6 +474,11 @@ func (o *ObjectSchema) applySubObjectDefaultValues(propertyID string, property *
 	default:
 		return
 	}
+	if _, alreadyVisiting := visiting[subObject]; alreadyVisiting {
+		return
+	}
+	visiting[subObject] = struct{}{}
+	defer delete(visiting, subObject)
 	data := map[string]any{}
 	if _, ok := rawData[propertyID]; ok {
 		data = rawData[propertyID].(map[string]any)
@@ -472,7 +488,7 @@ func (o *ObjectSchema) applySubObjectDefaultValues(propertyID string, property *
 		data[k] = v
 	}
 	for subPropertyID, subProperty := range subObject.Properties() {
-		o.applySubObjectDefaultValues(subPropertyID, subProperty, data)
+		o.applySubObjectDefaultValuesRecursive(subPropertyID, subProperty, data, visiting)
 	}
 	if len(data) != 0 {
 		rawData[propertyID] = data
